@@ -11,7 +11,7 @@ for sid in sorted(os.listdir(V + "/seeded")):
     d = os.path.join(V, "seeded", sid)
     if not os.path.isdir(d) or (only and sid not in only):
         continue
-    prop = sid.split("-")[0]
+    prop = sid[:3]
     meta = json.load(open(d + "/meta.json"))
     if prop not in claimed:
         rows.append((sid, prop, "property not claimed yet", "")); continue
